@@ -41,6 +41,7 @@ type shape struct {
 	canceller bool // a task cancels ctx
 	preCancel bool // ctx cancelled before Shutdown is called
 	syncToo   bool // an extra synchronous handler on a
+	pubCancel int  // publishes use a context: 1 = cancelled before the publish, 2 = cancelled by a task at an explored point
 }
 
 type inst struct {
@@ -92,11 +93,27 @@ func (in *inst) Body() {
 	if s.preCancel {
 		cancel()
 	}
+	pctx, pcancel := context.WithCancel(context.Background())
+	defer pcancel()
+	if s.pubCancel == 1 {
+		pcancel()
+	}
+	if s.pubCancel == 2 {
+		vrt.Go(func() {
+			vrt.Point()
+			in.rec.Add("pcancel", 0, 0, "")
+			pcancel()
+		})
+	}
 	waiter := func(w int) {
 		for i := 0; i < s.pubs && w == 0; i++ {
 			id := 10 + i
 			in.rec.Add("call", id, 0, "")
-			A.Pub(bus, id)
+			if s.pubCancel != 0 {
+				A.PubCtx(bus, pctx, id)
+			} else {
+				A.Pub(bus, id)
+			}
 			in.rec.Add("ret", id, 0, "")
 		}
 		in.rec.Add("wcall", w, 0, "")
@@ -208,6 +225,15 @@ func (in *inst) Check(res *vrt.Result) []vrt.Violation {
 					n++
 				}
 			}
+			if in.s.pubCancel != 0 && id < 1000 && n <= 1 {
+				continue
+			}
+			if in.s.pubCancel != 0 && id >= 1000 {
+				// nested publish happens only if the parent ran
+				if h.Count(evs, "enter", hA0, id-1000) == 0 && n == 0 {
+					continue
+				}
+			}
 			if n != 1 {
 				bad("delivery-count", fmt.Sprintf("async delivery of event %d to handler %d ran %d times", id, hid, n), "")
 			}
@@ -273,6 +299,9 @@ func (in *inst) Check(res *vrt.Result) []vrt.Violation {
 		}
 		for k := range acc {
 			x := pos("exit", k[0], k[1])
+			if in.s.pubCancel != 0 && pos("enter", k[0], k[1]) < 0 {
+				continue // skipped because its publish context was cancelled
+			}
 			if x < 0 || x > wr {
 				what := "Wait"
 				if isShutdown {
@@ -312,6 +341,9 @@ func shapes(thorough bool) []shape {
 		{name: "wait/other-publisher", pubs: 1, other: 1},
 		{name: "wait/two-waiters", pubs: 1, waiters: 1, nested: true},
 		{name: "wait/sync+async", pubs: 2, syncToo: true},
+		{name: "wait/publish-ctx-precancelled", pubs: 2, twoH: true, pubCancel: 1},
+		{name: "wait/publish-ctx-cancel-race", pubs: 2, nested: true, pubCancel: 2},
+		{name: "shutdown/publish-ctx-cancel-race", pubs: 1, shutdown: true, pubCancel: 2},
 		{name: "shutdown/1pub", pubs: 1, shutdown: true},
 		{name: "shutdown/nested", pubs: 1, nested: true, shutdown: true},
 		{name: "shutdown/cancel-race", pubs: 1, shutdown: true, canceller: true},
